@@ -12,7 +12,7 @@
    starting file and after every operation of every generated sequence (function EditInv). *)
 From Coq Require Import Permutation.
 From Verif.Base Require Import Bytes.
-From Verif.Modfile Require Import Syntax Print Directives RoundDir2 Reparse2 Reparse3 Reparse5 Reparse7 Reparse9 Reparse10.
+From Verif.Modfile Require Import Syntax Print Directives RoundLexPure3 RoundDir2 Reparse2 Reparse3 Reparse5 Reparse7 Reparse9 Reparse10 Reparse11 Reparse12 Reparse13 Reparse14 Reparse15 Reparse16 Reparse17 Reparse18 Reparse19.
 From Verif.Modfile Require Import EditModel EditOps EditSpec EditProofsTyped EditProofsCoherent EditProofsCleanup EditProofsAddLine EditProofsAdd EditProofsUpsert EditProofsSeq EditProofsBlocks EditProofsSetRequire EditProofsExact EditProofs2Blocks EditProofs2Settable EditProofs2Sri EditProofs2Inv EditProofs2Check.
 
 (* After File.Cleanup no typed list holds a cleared placeholder entry. *)
@@ -307,3 +307,211 @@ Theorem C15_typed_equals_reparse_work_state : forall name f,
     Permutation (map rep_vals (wf_replace f')) (k_replace (abs f)).
 Proof. exact typed_equals_reparse_work. Qed.
 Print Assumptions C15_typed_equals_reparse_work_state.
+
+(* The comment-derived values.  [TextOk f] (Reparse12.v): for every module / retract entry, the
+   typed text (Module.Deprecated, Retract.Rationale) is what the directive layer reads from the
+   comments of the entry's line in the tree (its own Before and Suffix comments, or those of the
+   enclosing block when it has none).  Under this hypothesis they are equal too. *)
+Theorem C15_typed_equals_reparse_text_state : forall name f,
+  Coherent f -> Printable known_mod_block (fsyn f) -> tis_ok (typed_items f) -> TextOk f ->
+  exists f', parse_to_file true None (format (to_syntax name (fsyn f))) = DOk f' /\
+    option_map (fun m => (mv_path (md_mod m), md_deprecated m)) (fd_module f') =
+      option_map (fun m => (mo_path m, mo_depr m)) (f_module f) /\
+    Permutation (map (fun r => (rt_low r, rt_high r, rt_rationale r)) (fd_retract f')) (k_retract (abs f)).
+Proof. exact typed_equals_reparse_text. Qed.
+Print Assumptions C15_typed_equals_reparse_text_state.
+
+(* Without TextOk the clause is false: finding K6, both replays of notes/replays/K6.json evaluated
+   in the model.  (a) AddRetract with an empty rationale into a retract block that has leading
+   comments: typed Rationale "", re-parse "c2".  (b) Cleanup collapses a one-line retract block
+   and merges the block comments into the line: typed "c6\nc7", re-parse "c5\nc6\nc7".  In both
+   the states satisfy every other hypothesis (C15_k6_states_satisfy_other_hypotheses). *)
+Theorem C15_typed_equals_reparse_rationale_refuted :
+  exists errs, run_ops k6a_ops k6a_file = RunOk errs k6a_final /\
+  k_retract (abs k6a_final) =
+    [(B "v1.0.0", B "v1.0.0", B "c3"); (B "v1.2.3", B "v1.2.3", B "c4"); (B "v1.9.0", B "v1.9.0", [])] /\
+  exists parsed, parse_to_file true None (format (to_syntax [] (fsyn k6a_final))) = DOk parsed /\
+    map (fun r => (rt_low r, rt_high r, rt_rationale r)) (fd_retract parsed) =
+    [(B "v1.0.0", B "v1.0.0", B "c3"); (B "v1.2.3", B "v1.2.3", B "c4"); (B "v1.9.0", B "v1.9.0", B "c2")].
+Proof. exact typed_equals_reparse_rationale_refuted. Qed.
+Print Assumptions C15_typed_equals_reparse_rationale_refuted.
+
+Theorem C15_typed_equals_reparse_rationale_refuted_collapse :
+  coherentb k6b_file = true /\ printableb known_mod_block (fsyn k6b_file) = true /\ tis_okb (typed_items k6b_file) = true /\
+  coherentb (cleanup k6b_file) = true /\ printableb known_mod_block (fsyn (cleanup k6b_file)) = true /\
+  k_retract (abs (cleanup k6b_file)) = [(B "v1.0.0", B "v1.2.3", B "c6" ++ [10] ++ B "c7")] /\
+  exists parsed, parse_to_file true None (format (to_syntax [] (fsyn (cleanup k6b_file)))) = DOk parsed /\
+    map (fun r => (rt_low r, rt_high r, rt_rationale r)) (fd_retract parsed) =
+    [(B "v1.0.0", B "v1.2.3", B "c5" ++ [10] ++ B "c6" ++ [10] ++ B "c7")].
+Proof. exact typed_equals_reparse_rationale_refuted_collapse. Qed.
+Print Assumptions C15_typed_equals_reparse_rationale_refuted_collapse.
+
+Theorem C15_k6_states_satisfy_other_hypotheses :
+  Coherent k6a_file /\ Printable known_mod_block (fsyn k6a_file) /\ tis_ok (typed_items k6a_file) /\
+  Coherent k6a_final /\ Printable known_mod_block (fsyn k6a_final) /\ tis_ok (typed_items k6a_final).
+Proof. exact k6a_hyps. Qed.
+Print Assumptions C15_k6_states_satisfy_other_hypotheses.
+
+(* ---------------------------------------------------------------- the hypotheses are invariants
+
+   [SynGood known s] (Reparse15.v), about the tree only: every line of the heap has Before
+   comments that are "//" comments without line feed (no blank-line marker), at most one
+   end-of-line comment, which is such a comment and ASCII, no After comments; the own comments of
+   blocks and comment blocks likewise (before ")" blank-line markers are allowed, never two in a
+   row); a block header is one token and a block verb of the file kind, unless nothing stands before
+   ")".  It is preserved by all 37 operations and every sequence; the only condition on the
+   arguments is that the text of AddComment is a "//" comment without line feed. *)
+Theorem C15_syn_good_invariant : forall known o f f',
+  comment_arg_ok o -> SynGood known (fsyn f) -> apply o f = ROk f' \/ apply o f = RErr f' -> SynGood known (fsyn f').
+Proof. exact syn_good_step. Qed.
+Print Assumptions C15_syn_good_invariant.
+
+Theorem C15_syn_good_invariant_sequences : forall known ops f k er errs f',
+  Forall comment_arg_ok ops -> SynGood known (fsyn f) -> run_from k er ops f = RunOk errs f' -> SynGood known (fsyn f').
+Proof. exact syn_good_run. Qed.
+Print Assumptions C15_syn_good_invariant_sequences.
+
+(* what Cleanup establishes, and with it Printable: every line of the tree is live, no block is
+   empty, a block of one line has comments before its ")" *)
+Theorem C15_cleanup_cleans : forall s, Cleaned (syn_cleanup s).
+Proof. exact syn_cleanup_cleaned. Qed.
+Print Assumptions C15_cleanup_cleans.
+
+Theorem C15_good_cleaned_is_printable : forall f,
+  Coherent f -> Forall (fun x => mod_item (snd x)) (typed_items f) ->
+  SynGood known_mod_block (fsyn f) -> Cleaned (fsyn f) -> Printable known_mod_block (fsyn f).
+Proof. exact printable_mod. Qed.
+Print Assumptions C15_good_cleaned_is_printable.
+
+(* the validity of the typed entries is a property of the keyed collections [KOk P (abs f)], and
+   the documented steps preserve it when the arguments are valid items ([strict_args P o]: e.g.
+   AddRequire p v needs pv_ok p v; AddGodebug k v a plain token "k=v"; Drop* nothing) *)
+Theorem C15_valid_entries_invariant : forall (P : item -> Prop) ops k errs_rev,
+  Forall (strict_args P) ops -> KOk P k -> KOk P (fst (krun ops k errs_rev)).
+Proof. exact krun_ok. Qed.
+Print Assumptions C15_valid_entries_invariant.
+
+(* ---------------------------------------------------------------- typed_equals_reparse, end to end
+
+   For every starting state f that satisfies the C15 invariant (Coherent, BlockIdsOk,
+   HeapSettable: finding K9 excluded), whose tree is SynGood and whose typed entries are valid
+   items of go.mod ([Pmod it] = item_ok it and it is not a use directive), for every sequence of
+   operations with valid arguments ([valid_args]: keys not empty ...; [strict_args Pmod]: the
+   added values are valid items; AddComment's text is a comment) that does not panic, followed by
+   Cleanup: Format of the final tree is accepted by the strict parser, and its directives are, as
+   multisets, the typed lists of the final state.
+   Not covered (outside the hypotheses): starting files with a blank line directly before a line
+   inside a block (the parser records it as a blank-line marker in the line's Before comments;
+   harmless for the directive values, but the tree after Cleanup may not be one the round-trip
+   theorems of C02 speak about), non-ASCII end-of-line comments, finding K6 for the two text
+   values (see above), finding K9 (HeapSettable). *)
+Theorem C15_typed_equals_reparse : forall name ops f errs f',
+  Coherent f -> BlockIdsOk (fsyn f) -> HeapSettable (fsyn f) -> SynGood known_mod_block (fsyn f) -> KOk Pmod (abs f) ->
+  Forall (fun o => valid_args o = true) ops -> Forall comment_arg_ok ops -> Forall (strict_args Pmod) ops ->
+  run_ops (ops ++ [Cleanup]) f = RunOk errs f' ->
+  exists parsed, parse_to_file true None (format (to_syntax name (fsyn f'))) = DOk parsed /\
+    option_map (fun m => mv_path (md_mod m)) (fd_module parsed) = k_module (abs f') /\
+    option_map go_version (fd_go parsed) = k_go (abs f') /\
+    option_map tc_name (fd_toolchain parsed) = k_toolchain (abs f') /\
+    Permutation (map (fun g => (Directives.gd_key g, gd_value g)) (fd_godebug parsed)) (k_godebug (abs f')) /\
+    Permutation (map (fun r => (mv_path (rq_mod r), mv_version (rq_mod r), rq_indirect r)) (fd_require parsed)) (k_require (abs f')) /\
+    Permutation (map (fun r => (mv_path (ex_mod r), mv_version (ex_mod r))) (fd_exclude parsed)) (k_exclude (abs f')) /\
+    Permutation (map rep_vals (fd_replace parsed)) (k_replace (abs f')) /\
+    Permutation (map (fun r => (rt_low r, rt_high r)) (fd_retract parsed))
+                (map (fun x => (fst (fst x), snd (fst x))) (k_retract (abs f'))) /\
+    Permutation (map Directives.tl_path (fd_tool parsed)) (k_tool (abs f')).
+Proof. exact typed_equals_reparse. Qed.
+Print Assumptions C15_typed_equals_reparse.
+
+Theorem C15_typed_equals_reparse_work : forall name ops f errs f',
+  Coherent f -> BlockIdsOk (fsyn f) -> HeapSettable (fsyn f) -> SynGood known_work_block (fsyn f) -> KOk Pwork (abs f) ->
+  Forall (fun o => valid_args o = true) ops -> Forall comment_arg_ok ops -> Forall (strict_args Pwork) ops ->
+  run_ops (ops ++ [WCleanup]) f = RunOk errs f' ->
+  exists parsed, parse_work None (format (to_syntax name (fsyn f'))) = DOk parsed /\
+    option_map go_version (wf_go parsed) = k_go (abs f') /\
+    option_map tc_name (wf_toolchain parsed) = k_toolchain (abs f') /\
+    Permutation (map (fun g => (Directives.gd_key g, gd_value g)) (wf_godebug parsed)) (k_godebug (abs f')) /\
+    Permutation (map Directives.us_path (wf_use parsed)) (map fst (k_use (abs f'))) /\
+    Permutation (map rep_vals (wf_replace parsed)) (k_replace (abs f')).
+Proof. exact typed_equals_reparse_w. Qed.
+Print Assumptions C15_typed_equals_reparse_work.
+
+(* The same without any hypothesis on the tree of the STARTING state, when the tree of the FINAL
+   state is printable (a decidable condition, [printableb]); this form covers starting files with
+   blank lines inside blocks as long as no blank-line marker ends up before a top-level line or
+   first in a block. *)
+Theorem C15_typed_equals_reparse_if_printable : forall name ops f errs f',
+  Coherent f -> BlockIdsOk (fsyn f) -> HeapSettable (fsyn f) ->
+  Forall (fun o => valid_args o = true) ops -> Forall (strict_args Pmod) ops -> KOk Pmod (abs f) ->
+  run_ops ops f = RunOk errs f' -> Printable known_mod_block (fsyn f') ->
+  exists parsed, parse_to_file true None (format (to_syntax name (fsyn f'))) = DOk parsed /\
+    (option_map (fun m => mv_path (md_mod m)) (fd_module parsed) = k_module (abs f') /\
+     option_map go_version (fd_go parsed) = k_go (abs f') /\
+     option_map tc_name (fd_toolchain parsed) = k_toolchain (abs f') /\
+     Permutation (map (fun g => (Directives.gd_key g, gd_value g)) (fd_godebug parsed)) (k_godebug (abs f')) /\
+     Permutation (map (fun r => (mv_path (rq_mod r), mv_version (rq_mod r), rq_indirect r)) (fd_require parsed)) (k_require (abs f')) /\
+     Permutation (map (fun r => (mv_path (ex_mod r), mv_version (ex_mod r))) (fd_exclude parsed)) (k_exclude (abs f')) /\
+     Permutation (map rep_vals (fd_replace parsed)) (k_replace (abs f')) /\
+     Permutation (map (fun r => (rt_low r, rt_high r)) (fd_retract parsed))
+                 (map (fun x => (fst (fst x), snd (fst x))) (k_retract (abs f'))) /\
+     Permutation (map Directives.tl_path (fd_tool parsed)) (k_tool (abs f'))) /\
+    krun ops (abs f) [] = (abs f', errs).
+Proof. exact reparse_run_mod. Qed.
+Print Assumptions C15_typed_equals_reparse_if_printable.
+
+Theorem C15_typed_equals_reparse_work_if_printable : forall name ops f errs f',
+  Coherent f -> BlockIdsOk (fsyn f) -> HeapSettable (fsyn f) ->
+  Forall (fun o => valid_args o = true) ops -> Forall (strict_args Pwork) ops -> KOk Pwork (abs f) ->
+  run_ops ops f = RunOk errs f' -> PrintableW (fsyn f') ->
+  exists parsed, parse_work None (format (to_syntax name (fsyn f'))) = DOk parsed /\
+    (option_map go_version (wf_go parsed) = k_go (abs f') /\
+     option_map tc_name (wf_toolchain parsed) = k_toolchain (abs f') /\
+     Permutation (map (fun g => (Directives.gd_key g, gd_value g)) (wf_godebug parsed)) (k_godebug (abs f')) /\
+     Permutation (map Directives.us_path (wf_use parsed)) (map fst (k_use (abs f'))) /\
+     Permutation (map rep_vals (wf_replace parsed)) (k_replace (abs f'))) /\
+    krun ops (abs f) [] = (abs f', errs).
+Proof. exact reparse_run_work. Qed.
+Print Assumptions C15_typed_equals_reparse_work_if_printable.
+
+(* ... and the two text values when the final state satisfies TextOk *)
+Theorem C15_typed_equals_reparse_with_text : forall name ops f errs f',
+  Coherent f -> BlockIdsOk (fsyn f) -> HeapSettable (fsyn f) -> SynGood known_mod_block (fsyn f) -> KOk Pmod (abs f) ->
+  Forall (fun o => valid_args o = true) ops -> Forall comment_arg_ok ops -> Forall (strict_args Pmod) ops ->
+  run_ops (ops ++ [Cleanup]) f = RunOk errs f' -> TextOk f' ->
+  exists parsed, parse_to_file true None (format (to_syntax name (fsyn f'))) = DOk parsed /\
+    option_map (fun m => (mv_path (md_mod m), md_deprecated m)) (fd_module parsed) =
+      option_map (fun m => (mo_path m, mo_depr m)) (f_module f') /\
+    Permutation (map (fun r => (rt_low r, rt_high r, rt_rationale r)) (fd_retract parsed)) (k_retract (abs f')).
+Proof. exact typed_equals_reparse_with_text. Qed.
+Print Assumptions C15_typed_equals_reparse_with_text.
+
+(* every hypothesis on the starting state has a sound executable mirror, and they are satisfiable:
+   the starting state and the operation of finding K6 (a) *)
+Theorem C15_reparse_hypotheses_checkable : forall known s k,
+  (syn_goodb known s = true -> SynGood known s) /\ (printableb known s = true -> Printable known s) /\
+  (kokb pmodb k = true -> KOk Pmod k) /\ (kokb pworkb k = true -> KOk Pwork k).
+Proof.
+  intros known s k. split; [apply syn_goodb_ok|]. split; [apply printableb_ok|].
+  split; [apply kokb_ok; exact pmodb_ok|apply kokb_ok; exact pworkb_ok].
+Qed.
+Print Assumptions C15_reparse_hypotheses_checkable.
+
+Example C15_typed_equals_reparse_nonvacuous :
+  Coherent k6a_file /\ BlockIdsOk (fsyn k6a_file) /\ HeapSettable (fsyn k6a_file) /\
+  SynGood known_mod_block (fsyn k6a_file) /\ KOk Pmod (abs k6a_file) /\
+  Forall (fun o => valid_args o = true) [AddRetract (B "v1.9.0") (B "v1.9.0") []] /\
+  Forall comment_arg_ok [AddRetract (B "v1.9.0") (B "v1.9.0") []] /\
+  Forall (strict_args Pmod) [AddRetract (B "v1.9.0") (B "v1.9.0") []] /\
+  exists errs, run_ops ([AddRetract (B "v1.9.0") (B "v1.9.0") []] ++ [Cleanup]) k6a_file = RunOk errs k6a_final.
+Proof. exact end_to_end_nonvacuous. Qed.
+
+Example C15_typed_equals_reparse_work_nonvacuous :
+  Coherent work_example /\ BlockIdsOk (fsyn work_example) /\ HeapSettable (fsyn work_example) /\
+  SynGood known_work_block (fsyn work_example) /\ KOk Pwork (abs work_example) /\
+  Forall (fun o => valid_args o = true) [WAddUse (B "./b") []] /\
+  Forall comment_arg_ok [WAddUse (B "./b") []] /\
+  Forall (strict_args Pwork) [WAddUse (B "./b") []] /\
+  exists errs f', run_ops ([WAddUse (B "./b") []] ++ [WCleanup]) work_example = RunOk errs f' /\
+    exists parsed, parse_work None (format (to_syntax [] (fsyn f'))) = DOk parsed /\
+      map Directives.us_path (wf_use parsed) = [B "./a"; B "./b"].
+Proof. exact end_to_end_work_nonvacuous. Qed.
